@@ -276,10 +276,11 @@ PROPS['C05'].update({
     'level_note': 'Assumes bitsets contracts (atomic, keys), heapq, sorted (permutation), SMT<->Lean transcription.',
 })
 PROPS['C06'].update({
-    'units': LATINV + ['lattices.infimum', 'lattices.supremum', 'lattices.atoms', 'lattices.__iter__'],
+    'units': LATINV + ['lattices.infimum', 'lattices.supremum', 'lattices.atoms', 'lattices.__iter__', 'lattices._fromlist.raw', 'lattices._fromlist.ordered'],
     'level': 'proof',
     'proved_part': 'generator order strictly increasing in the shortlex rank; index = position; dindex = position in the longlex-sorted order; upper_neighbors sorted by the shortlex key, '
-                   'lower_neighbors by the longlex key; infimum/supremum/atoms = first member / last member / upper neighbours of the first; ' + CHAIN,
+                   'lower_neighbors by the longlex key; infimum/supremum/atoms = first member / last member / upper neighbours of the first; '
+                   'Lattice._fromlist: canonical list trusted as given, with raw=True re-sorted (members and every neighbour list) from any permutation; ' + CHAIN,
     'bounded_part': 'that the bitsets keys are the positional shortlex/longlex orders (labels chosen so that label order differs from position); replay',
     'technique': 'contract-based deductive verification of order and ranks through the construction chain, relative to the key contract of bitsets',
     'level_text': 'All order clauses are proved relative to the contract that shortlex()/longlex() keys realise the positional orders.',
@@ -312,7 +313,7 @@ PROPS['C17'].update({
 })
 
 PROPS['C16'].update({
-    'units': ['junctors.RelationMeta.__call__', 'lemma.relation_patterns', 'junctors.Relations.__init__', 'junctors.Relations.tostring'],
+    'units': ['junctors.RelationMeta.__call__', 'lemma.relation_patterns', 'junctors.Relations.__init__', 'junctors.Relations.tostring', 'contexts.relations'],
     'level': 'proof',
     'proved_part': 'classification by complete enumeration of the finite pattern domain against the real class table (kind, rank, orientation; Replication becomes a '
                    'swapped Implication); two contingent columns can only give the 7 oracle patterns; Relations.__init__: unary entries per property first (when requested), '
@@ -430,5 +431,21 @@ PROPS['C04'].update({
     'level_text': 'All obligations are discharged for all contexts (unbounded): each generator yields exactly the formal concepts, each exactly once; the wrappers preserve the sequence.',
     'level_note': 'Assumes bitsets contracts (atoms(), fromint, supremum/infimum), the stack-as-multiset abstraction (pop returns some entry: emission order is outside C04), '
                   'list copy/element assignment as heap operations; termination not proved. The agreement with context.lattice is the corollary of this and the C03 units, not a separate obligation.',
+})
+PROPS['C09'].update({
+    'units': ['common.iterunion', 'members.upset', 'members.downset', 'lattices.upset_union', 'lattices.downset_union', 'tools.maximal',
+              'lemma.traversal.up', 'lemma.traversal.down'],
+    'level': 'proof',
+    'proved_part': 'iterunion yields exactly the items reachable from the seeds, in strictly increasing key order, each once (heap/ghost-set invariant I1-I5, '
+                   'L-REACH in Lean) for any key/next satisfying its requirements; the four wrappers pass the right seeds, rank key and neighbour getter (and the '
+                   'reduced collection from tools.maximal); tools.maximal (the real generator expression over permutations/groupby/starmap) returns exactly the '
+                   'elements with nothing of the collection strictly before them, each once; corollary lemmas lemma.traversal.up/down: under LatInv the requirements '
+                   'of iterunion hold and reach = the filter (ideal) of the seeds = that of the whole collection (L-UPSET, L-DOWNSET, L-MINIMAL proved in Lean)',
+    'bounded_part': 'the same statement on enumerated lattices (all concepts, pairs and sampled multisets incl. repeats and one-shot iterables); replay',
+    'technique': 'contract-based deductive verification of the worklist generator, of tools.maximal and of the wrappers; corollary lemmas (z3) over these contracts with '
+                 'Lean-proved order lemmas as instances; bounded run-time contracts as replay',
+    'level_text': 'All obligations are discharged for all lattices satisfying LatInv: the four traversals yield exactly the filter/ideal (of the union), once each, in index/dindex order.',
+    'level_note': 'Relative to LatInv (index/dindex strictly monotone bijections: LatInv.2/3 + L-SLEX/L-LLEX; neighbours = covers: LatInv.5, established by the C03/C05/C06 chain); '
+                  'assumed library contracts: heapq, builtin set, itertools.permutations/groupby/starmap, any; SMT<->Lean transcription; termination not proved.',
 })
 NOT_APPLICABLE = {}
